@@ -5,9 +5,13 @@ solvers) with a counting equation and recording trackers vs the Lean controller 
 (`PdeVerif.Controller.runSpec`, handler `c07.run`): full event trace `(tracker, t, state)`,
 `t_final`, `steps`, final state, stop reason, finalize calls, recorded frames, pending action times.
 Dyadic parameters: exactly against the Rat model; decimal parameters: bit for bit against the Float
-instantiation of the same definitions.  Monitors (on every real run): steps == N, t_final == t_end,
-t_final == t_start + steps*dt, |t_final - t_end| < dt, final state == iterate of the one-step map,
-identical final state / steps / t_final for every tracker set, initial state object untouched."""
+instantiation of the same definitions.  Equations: u'=1, u'=t and the state-dependent u'=a*u,
+u'=a*u+t, so that a solver whose own state (Adams-Bashforth's previous state, a fixed-point iterate)
+is disturbed by a tracker interrupt ends in a different state.  Monitors (on every real run):
+steps == N, t_final == t_end, t_final == t_start + steps*dt, |t_final - t_end| < dt, final state ==
+iterate of the solver's one-step map (own Python copy of the five schemes), final state of every
+tracked run bit-identical (autonomous) / identical to round-off with the tracker-free run of its
+group, same steps / t_final, initial state object untouched."""
 import copy
 import json
 
@@ -18,13 +22,19 @@ LEVEL = "proof"
 REQUIRED_THEOREMS = [
     "lattice_invariant", "no_overshoot", "progress", "run_terminates", "steps_eq_ceil",
     "whole_range_exact", "whole_range_exact_approx", "general_range", "state_is_iterate",
-    "observation_independent", "initial_state_untouched", "readonly_reaches_final", "whole_range_exact_readonly",
+    "observation_independent", "observed_run_eq_unobserved", "solver_state_survives_interrupts",
+    "initial_state_untouched_partial", "readonly_reaches_final", "whole_range_exact_readonly",
     "round_stable", "steps_stable_under_relative_error",
 ]
 RULE = ("groups of runs sharing (dt, t_start, t_end, equation, solver, backend) and differing in the tracker "
-        "set (the first set is empty; 0-4 trackers with constant / fixed / logarithmic / geometric / adversarial "
-        "oracle schedules, intervals chosen as non-commensurate multiples of dt incl. x.5 ties and D < dt); "
-        "dyadic numbers are compared exactly with the Rat model, decimal numbers bit-exactly with the Float model; "
+        "set (the first set is empty: the tracker-free reference run; 0-4 trackers with constant / fixed / "
+        "logarithmic / geometric / adversarial oracle schedules, intervals chosen as non-commensurate multiples of "
+        "dt incl. x.5 ties and D < dt, two trackers handed the same interrupt object); equations u'=1, u'=t, u'=1 with a "
+        "post-step hook that keeps a step counter in post_step_data, and the "
+        "state-dependent u'=a*u, u'=a*u+t (|a*dt| <= 1/2) with all five fixed-step solvers on numpy, numba source "
+        "and numba JIT; dyadic numbers are compared exactly with the Rat model (states of the state-dependent "
+        "equations to 1e-10 and, for interpreted Euler, bit for bit with the Float model), decimal numbers "
+        "bit-exactly with the Float model; "
         "a run is distinct by its full case record and non-trivial if it takes >= 2 steps and (unless it is the "
         "tracker-free reference run of its group) at least one tracker call happens")
 ASSUMPTIONS = [
@@ -32,8 +42,14 @@ ASSUMPTIONS = [
     "steps_stable_under_relative_error and through the bit-exact Float replay of the same model definitions",
     "GeometricInterrupts answers (libm log/pow) are replayed as an oracle schedule in Float mode and whenever the "
     "exact lattice point differs from the float answer; the theorems hold for every oracle",
-    "the simulated state is one number per cell (counting equations u'=1, u'=t); the theorems are for an arbitrary "
-    "state type and one-step map",
+    "the simulated state is one number per cell (u'=1, u'=t, u'=a*u, u'=a*u+t; all cells alike) plus the stepper's "
+    "own persistent state; the theorems are for an arbitrary state type and one-step map",
+    "the clause `initial state object left unmodified` is judged by the monitor only (the value-semantics model "
+    "cannot express a missing copy: theorem initial_state_untouched_partial)",
+    "post-step hooks are covered by one hook with persistent data (a step counter added to the state; the data is the "
+    "second component of the model's solver state); trackers that read or write info[...] are neither modelled nor generated",
+    "decimal parameters under JIT (fused multiply-add) have no bit-exact model reference: judged by the monitors, "
+    "agreement with the Float model reported as a histogram",
 ]
 TRUSTED_EXTRA = ["IEEE double arithmetic of Lean's Float equals CPython/numpy/numba float64 for + - * / floor"]
 
@@ -49,14 +65,17 @@ MALFORMED = [
 
 
 # ------------------------------------------------------------------------------------------
-def gen_group(rng, hist, exec_mode, max_steps):
+def gen_group(rng, hist, exec_mode, max_steps, force=None):
+    """`force` = (solver, equation class): the compiled steppers of all five solvers are exercised with a
+    state-dependent equation in every run of the check"""
     # under JIT only dyadic numbers have a bit-exact reference (see ctrl.resolve): favour them there
     numbers = rng.choice(["Q", "F"]) if exec_mode != "numba-J" else rng.choice(["Q", "Q", "Q", "F"])
     dt, t0, t1, N, delta = ctrl.gen_base(rng, numbers, hist, max_steps)
-    eq = rng.choice(["one", "time"])
-    solver = "euler" if rng.random() < 0.8 else rng.choice(ctrl.FIXED_SOLVERS[1:])
-    u0 = rng.choice([0.0, 0.0, 1.0, ctrl.dyadic(rng, 0, 16, 3)]) if numbers == "Q" else rng.choice([0.0, 0.1, 1.0, -0.3, 2.5])
-    base = {"numbers": numbers, "dt": dt, "t_start": t0, "t_end": t1, "u0": u0, "eq": eq, "solver": solver,
+    eq, a, u0 = ctrl.gen_equation(rng, numbers, dt, t0, t1, hist, state_dependent=1.0 if force else 0.5)
+    solver = "euler" if rng.random() < 0.55 else rng.choice(ctrl.FIXED_SOLVERS[1:])
+    if force:
+        solver = force
+    base = {"numbers": numbers, "dt": dt, "t_start": t0, "t_end": t1, "u0": u0, "eq": eq, "a": a, "solver": solver,
             "backend": "numpy" if exec_mode == "numpy" else "numba", "jit": exec_mode == "numba-J", "N": N, "delta": delta,
             "cells": rng.choice([1, 1, 1, 3])}
     if t0 == 0.0 and rng.random() < 0.3:
@@ -70,12 +89,12 @@ def gen_group(rng, hist, exec_mode, max_steps):
     hist("dtype", kind)
     hist("numbers", "dyadic" if numbers == "Q" else "decimal")
     hist("solver", solver)
-    hist("equation", eq)
     hist("exec", exec_mode)
+    hist("solver x equation x exec", f"{solver} / {'state-dependent' if eq in ctrl.STATE_DEPENDENT else 'counting'} / {exec_mode}")
     k = rng.choice([2, 3, 3, 4])
     cases = []
     for j in range(k):
-        trs = [] if j == 0 else ctrl.gen_trackers(rng, numbers, dt, t0, t1, hist)
+        trs = [] if j == 0 else ctrl.gen_trackers(rng, numbers, dt, t0, t1, hist, shared_objects=True)
         if j > 0 and not trs:
             trs = ctrl.gen_trackers(rng, numbers, dt, t0, t1, hist, n=1)
         cases.append(dict(copy.deepcopy(base), trackers=trs))
@@ -100,8 +119,11 @@ def run_monitors(ctx, group, reals):
 def run(ctx):
     from harness.common.lean import LeanBatch
     rng = ctx.rng
-    plan = {"numpy": ctx.budget(500, 14000), "numba-S": ctx.budget(90, 2400), "numba-J": ctx.budget(12, 320)}
-    groups = {m: [gen_group(rng, ctx.hist, m, 120 if m != "numba-J" else 40) for _ in range(n)] for m, n in plan.items()}
+    plan = {"numpy": ctx.budget(500, 14000), "numba-S": ctx.budget(90, 2400), "numba-J": ctx.budget(14, 320)}
+    groups = {m: [gen_group(rng, ctx.hist, m, 120 if m != "numba-J" else 40,
+                            force=ctrl.FIXED_SOLVERS[i % 5] if (m == "numba-J" and i < ctx.budget(5, 40)) or
+                            (m == "numba-S" and i < ctx.budget(10, 80)) else None)
+                  for i in range(n)] for m, n in plan.items()}
     results = ctrl.exec_groups(ctx, groups)
     batch, pending = LeanBatch(ctx.workdir), []
     for mode in groups:
@@ -140,59 +162,85 @@ def malformed(ctx):
 
 
 # ------------------------------------------------------------------------------------------
+def judge_group(group, reals, found=None):
+    """the C07 monitors on one group of executed runs: list of monitor-failure dicts"""
+    out = []
+    oks = [(c, r) for c, r in zip(group, reals) if not (isinstance(r, str) or r.get("error"))]
+    for c, r in oks:
+        for what, obs, exp in ctrl.monitor_accounting(c, r):
+            out.append({"leg": "accounting", "case": c, "observed": obs, "expected": exp, "what": what,
+                        "key": {"what": what}})
+    if len(oks) >= 2:
+        for what, obs, exp in ctrl.monitor_independence(oks):
+            out.append({"leg": "independence", "case": {"group": [c for c, _ in oks]}, "observed": obs,
+                        "expected": exp, "what": what, "key": {"what": what}})
+    return out
+
+
 def search(ctx, broken):
-    """failing-input search after a broken tie: the monitors on the disagreeing cases and on a
-    larger fresh sample (numpy backend in-process)"""
-    found = []
-
-    def probe(group):
-        reals = [ctrl.execute(c) for c in group]
-        oks = [(c, r) for c, r in zip(group, reals) if not r.get("error")]
-        for c, r in oks:
-            for what, obs, exp in ctrl.monitor_accounting(c, r):
-                found.append({"leg": "accounting", "case": c, "observed": obs, "expected": exp, "what": what,
-                              "key": {"what": what}})
-                return True
-        if len(oks) >= 2:
-            for what, obs, exp in ctrl.monitor_independence(oks):
-                found.append({"leg": "independence", "case": {"group": [c for c, _ in oks]}, "observed": obs,
-                              "expected": exp, "what": what, "key": {"what": what}})
-                return True
-        return False
-
+    """failing-input search after a broken tie: the monitors on the disagreeing cases (each next to its
+    tracker-free twin, in the execution mode it was generated for) and on a larger fresh sample - numpy
+    in-process, and the numba modes in which a disagreement occurred"""
+    groups, modes = [], set()
     for d in broken:
         c = d.get("case") if isinstance(d, dict) else None
-        if not c or "dt" not in c or c.get("backend") != "numpy":
+        if not c or "dt" not in c:
             continue
         c = copy.deepcopy(c)
         for tr in c["trackers"]:
             tr["stops"] = []
-        if probe([dict(c, trackers=[]), c]):
-            return found
+        modes.add(ctrl.exec_mode(c))
+        if len(groups) < 24:
+            groups.append([dict(copy.deepcopy(c), trackers=[]), c])
+    flat = [c for g in groups for c in g]
+    it = iter(ctrl.execute_as_recorded(flat, procs=8))
+    for g in groups:
+        found = judge_group(g, [next(it) for _ in g])
+        if found:
+            return found[:1]
     rng = ctx.sub_rng("search")
     nohist = lambda *a, **k: None
     for _ in range(4000):
-        if probe(gen_group(rng, nohist, "numpy", 150)):
-            return found
-    return found
+        g = gen_group(rng, nohist, "numpy", 150)
+        found = judge_group(g, [ctrl.execute(c) for c in g])
+        if found:
+            return found[:1]
+    for mode in sorted(modes - {"numpy"}):
+        gs = [gen_group(rng, nohist, mode, 60, force=ctrl.FIXED_SOLVERS[i % 5] if i % 2 else None)
+              for i in range(120 if mode == "numba-S" else 30)]
+        it = iter(ctrl.execute_as_recorded([c for g in gs for c in g], procs=8))
+        for g in gs:
+            found = judge_group(g, [next(it) for _ in g])
+            if found:
+                return found[:1]
+    return []
 
 
 def replay(ctx, rep):
-    c = rep["case"]
+    """re-run the recorded case (a single run, or the group of an independence failure) on the real code in
+    the recorded execution mode and judge the recorded symptom"""
+    c = rep.get("case")
+    if not isinstance(c, dict) or not ("group" in c or "dt" in c):
+        print("this file records no case of C07 (nothing to re-run): cannot be replayed")
+        return False
     group = c["group"] if "group" in c else [c]
-    reals = [ctrl.execute(x) for x in group]
-    bad = []
+    print("execution mode(s):", sorted({ctrl.exec_mode(x) for x in group}))
+    reals = ctrl.execute_as_recorded(group)
     for x, r in zip(group, reals):
         if r.get("error"):
-            bad.append(("run raised", r["error"], None))
-            continue
-        print("steps", r["steps"], "t_final", r["t_final"], "state", r["state"], "stop_reason", r["stop_reason"])
-        bad += ctrl.monitor_accounting(x, r)
-    oks = [(x, r) for x, r in zip(group, reals) if not r.get("error")]
-    if len(oks) >= 2:
-        bad += ctrl.monitor_independence(oks)
+            print("run raised:", r["error"])
+        else:
+            print("steps", r["steps"], "t_final", r["t_final"], "state", repr(r["state"]), "stop_reason", r["stop_reason"],
+                  "trackers", len(x["trackers"]))
+    if any(r.get("error") for r in reals):
+        return False
+    bad = judge_group(group, reals)
     for b in bad:
-        print("monitor:", b)
+        print("monitor:", b["what"], "| observed", b["observed"], "| expected", b["expected"])
+    what = rep.get("what")
+    same = [b for b in bad if what is None or b["what"] == what]
     if not bad:
         print("monitor: holds")
-    return not bad
+    elif not same:
+        print(f"the recorded symptom `{what}` is gone; the failures above are different ones")
+    return not same
